@@ -162,7 +162,7 @@ TabularDataFile& TabularDataFile::operator<<(const Var& x)
 			}
 			else if (item.is(Var::STRING))
 			{
-				if (value.contains(_quote) || value.contains(_separator))
+				if (_quoteStrings || value.contains(_quote) || value.contains(_separator))
 					row << _quote << value.replace(_quote, _equote) << _quote;
 				else
 					row << value;
